@@ -304,6 +304,11 @@ func c17Draw(rt *rapid.T) *gen.Model {
 
 func TestC17(t *testing.T) {
 	rec := ev.New("C17", c17Rule)
+	defer func() {
+		if !rec.Flush() {
+			t.Fail()
+		}
+	}()
 	rec.Assume("the gonum multigraph keeps no operand order, so structure is compared as multisets", "cycle flags are read with fmt %+v (no accessor exists)")
 	rec.Require("model:operator+ttu", 0.15)
 	rec.Require("model:parallel-lines", 0.03)
@@ -350,9 +355,6 @@ func TestC17(t *testing.T) {
 			rt.Fatalf("%s\n%s", msg, m.String())
 		}
 	})
-	if !rec.Flush() {
-		t.Fail()
-	}
 }
 
 func TestReplayC17(t *testing.T) {
